@@ -175,6 +175,8 @@ def check_formulas(case, ctx, sink):
     sink.case = case
     n, base = case['n'], case['base']
     two = any(r[0] == 'S2' for it in case['items'] for r in it['a'] + it['b'])
+    if two and base ** (2 * n * n) >= 2 ** 52:
+        base = 2        # two sheets: powers of 3 would not sum exactly in a double
     cells = _cells_for_model(n, base, case.get('variant', 0), two)
     d = {}
     for (s, c, r), v in cells.items():
